@@ -177,6 +177,24 @@ func c20One(c c20Case) string {
 		return c20String(ipmi.StringEncoding8BitAsciiLatin1, int(c.A), int(c.B), byte(c.C), byte(c.D))
 	case "unicode":
 		return c20String(ipmi.StringEncodingUnicode, int(c.A), int(c.B), byte(c.C), byte(c.D))
+	case "latin1seq": // A = number of bytes (2..4), B = the bytes packed big-endian, C = leading ASCII bytes, D = trailing ASCII bytes
+		var raw []byte
+		for i := int(c.A) - 1; i >= 0; i-- {
+			raw = append(raw, byte(c.B>>(8*uint(i))))
+		}
+		data := append(append(pattern(int(c.C), 'a', 1), raw...), pattern(int(c.D), 'x', 1)...)
+		var want []rune
+		for _, b := range data {
+			want = append(want, rune(b))
+		}
+		dec, err := ipmi.StringEncoding8BitAsciiLatin1.Decoder()
+		if err != nil {
+			return err.Error()
+		}
+		got, consumed, err := dec.Decode(append(append([]byte{}, data...), 0xA5, 0x5A), len(data))
+		if err != nil || got != string(want) || consumed != len(data) {
+			return fmt.Sprintf("8-bit ASCII + Latin-1: decode(% x) = (%q, %d, %v), want (%q, %d)", data, got, consumed, err, string(want), len(data))
+		}
 	case "ravg_b2d":
 		b := byte(c.A)
 		data := []byte{1, 5, 2, 1, b}
@@ -459,6 +477,31 @@ func runC20(r *rep.R) {
 						// the ASCII range has an unambiguous meaning there
 						do(c20Case{Prim: "unicode", A: int64(c), B: int64(pos), C: int64(code), D: fill & 0x3f})
 					}
+				}
+			}
+		}
+	}
+	// several bytes above 0x7f together (they must not be read as one UTF-8 sequence)
+	for a := int64(0x80); a < 0x100; a++ {
+		for b := int64(0x80); b < 0x100; b++ {
+			do(c20Case{Prim: "latin1seq", A: 2, B: a<<8 | b, C: (a + b) % 3, D: b % 2})
+		}
+	}
+	for lead := int64(0xE0); lead <= 0xEF; lead++ {
+		for b := int64(0x80); b < 0xC0; b++ {
+			for c3 := int64(0x80); c3 < 0xC0; c3++ {
+				if !thorough(r) && (b%4 != 0 && b != 0xBF && b != 0x9F && b != 0xA0) {
+					continue
+				}
+				do(c20Case{Prim: "latin1seq", A: 3, B: lead<<16 | b<<8 | c3, C: c3 % 2, D: 1})
+			}
+		}
+	}
+	for lead := int64(0xF0); lead <= 0xF4; lead++ {
+		for b := int64(0x80); b < 0xC0; b += 1 {
+			for _, c3 := range []int64{0x80, 0x9A, 0xBF} {
+				for _, c4 := range []int64{0x80, 0xA1, 0xBF} {
+					do(c20Case{Prim: "latin1seq", A: 4, B: lead<<24 | b<<16 | c3<<8 | c4, C: 1, D: 0})
 				}
 			}
 		}
